@@ -108,6 +108,9 @@ pub fn silence_panics() {
         } else {
             String::new()
         };
+        if msg.starts_with("You cannot create a CacheTable") {
+            return; // expected by the C19 construction workload
+        }
         let short: String = msg.chars().take(300).collect();
         eprintln!("panic at {}: {}", loc, short);
     }));
